@@ -27,7 +27,9 @@ impl Transport {
 				EndPosition::Custom(end_position) => end_position.into_samples(sample_rate),
 			};
 			(loop_start, loop_end)
-		});
+		})
+		// a loop region that is empty or ends before it starts cannot be looped
+		.filter(|(loop_start, loop_end)| loop_end > loop_start);
 		let (position, playing) = if reverse {
 			match num_frames
 				.checked_sub(1)
@@ -60,7 +62,9 @@ impl Transport {
 				EndPosition::Custom(end_position) => end_position.into_samples(sample_rate),
 			};
 			(loop_start, loop_end)
-		});
+		})
+		// a loop region that is empty or ends before it starts cannot be looped
+		.filter(|(loop_start, loop_end)| loop_end > loop_start);
 	}
 
 	pub fn increment_position(&mut self, num_frames: usize) {
